@@ -1019,7 +1019,7 @@ class RestAPI(object):
                     self.logger.error(
                         "RestAPI StartSyncExecution: input {} does not "
                         "contain valid JSON".format(
-                            input
+                            input_as_string
                         )
                     )
                     return aws_error("InvalidExecutionInput"), 400
